@@ -1002,7 +1002,17 @@ def check_C18(tier):
     # equal arguments of different types under keymaps that keep the types apart
     scenario_random(run, ALLALG, ['std', 'safe'], ['plain', 'dictarch', 'file'], 600 if t else 100, 25, nx=6, variants=('eqtypes',),
                     keymaps=[('str', True, False), ('raw', True, True), ('pickle', True, False), ('hash-md5', True, True), ('str-repr', True, False)])
+    # the decorated callable is a builtin without a signature (getattr): key() and lookup() must not evaluate it either
     rng = run.rng
+    for _ in range(600 if t else 100):
+        cfg = py_cfg(rng.choice(['std', 'safe']), rng.choice(ALLALG), rng.choice([1, 2, 3]), rng.choice(['plain', 'dictarch', 'file']),
+                     rng.choice([('str', True, False), ('hash-md5', True, False), ('raw', True, False), ('pickle', True, False)]), variant='builtin')
+        ops = [{'op': 'wrapped'}]
+        for o in cd.random_ops(rng, 26 if t else 20, cfg, 9, 'nobulk'):
+            if rng.random() < 0.4:
+                o = {'op': rng.choice(['lookup', 'key']), 'a': rng.randint(1, 9)}
+            ops.append(o)
+        run.jobs.append((cfg, ops, None))
     n = 2000 if t else 300
     for _ in range(n):
         alg = rng.choice(ALLALG)
@@ -1013,6 +1023,7 @@ def check_C18(tier):
             km = ('str', True, False)
         cfg = py_cfg(module, alg, rng.choice([1, 2, 3]), backend, km, variant=rng.choice(['plain', 'ignore_y', 'ignore_1', 'ignore_w', 'tol0', 'tol1']))
         cfg['reuse'] = rng.random() < 0.3      # the decorator object is applied to a second function as well
+        cfg['aspartial'] = rng.random() < 0.25   # what is decorated is a functools.partial (presetting nothing) of the stub
         ops = [{'op': 'wrapped'}]
         for o in cd.random_ops(rng, 30 if t else 22, cfg, 9, 'nobulk'):
             if rng.random() < 0.35:
